@@ -112,6 +112,64 @@ pub struct MgrModel {
     pub filter: &'static str,
     /// signatures listed in known_findings.json for this property: reported, but exploration continues past them
     pub known: BTreeSet<String>,
+    /// name of the non-initial state the exploration starts from (see `root_script`); "" = a fresh node
+    pub root: &'static str,
+}
+
+/// One step of a root script: an exact action, or the first / last enabled action of a kind (connection ids are
+/// assigned by the manager, the script does not know them).
+enum RootStep {
+    Exact(Act),
+    First(&'static str),
+    Last(&'static str),
+}
+
+fn act_kind(a: &Act) -> &'static str {
+    match a {
+        Act::Dial { .. } => "Dial",
+        Act::DialAddr { .. } => "DialAddr",
+        Act::AddKnown { .. } => "AddKnown",
+        Act::ProtoDial { .. } => "ProtoDial",
+        Act::Opened { .. } => "Opened",
+        Act::OpenedNegotiateFails { .. } => "OpenedNegotiateFails",
+        Act::OpenFail { .. } => "OpenFail",
+        Act::Established { .. } => "Established",
+        Act::DialFail { .. } => "DialFail",
+        Act::InboundPending { .. } => "InboundPending",
+        Act::InboundEstablished { .. } => "InboundEstablished",
+        Act::InboundVanish { .. } => "InboundVanish",
+        Act::AcceptDone { .. } => "AcceptDone",
+        Act::Close { .. } => "Close",
+        Act::MonitorExit => "MonitorExit",
+    }
+}
+
+/// Non-initial states the exploration also starts from ("most defects do not show from the initial state").
+fn root_script(root: &str) -> Vec<RootStep> {
+    use RootStep::*;
+    match root {
+        // peer 1 is connected through its own (inbound) connection while our dial to it is still in flight, and an
+        // outbound connection to peer 2 is established (with an outbound limit of 1 that fills it)
+        "p1-inbound-and-dial-in-flight+p2-outbound" => vec![
+            Exact(Act::DialAddr { p: 1, a: 0 }),
+            Exact(Act::InboundPending { p: 1 }),
+            First("InboundEstablished"),
+            First("AcceptDone"),
+            Exact(Act::DialAddr { p: 2, a: 0 }),
+            Last("Established"),
+            First("AcceptDone"),
+        ],
+        // peer 1 holds the two connections a peer may have
+        "p1-two-connections" => vec![
+            Exact(Act::InboundPending { p: 1 }),
+            First("InboundEstablished"),
+            First("AcceptDone"),
+            Exact(Act::InboundPending { p: 1 }),
+            First("InboundEstablished"),
+            First("AcceptDone"),
+        ],
+        _ => vec![],
+    }
 }
 
 pub struct Sys {
@@ -526,7 +584,7 @@ impl Model for MgrModel {
     }
 
     fn config(&self) -> Value {
-        json!({"max_in": self.max_in, "max_out": self.max_out, "filter": self.filter})
+        json!({"max_in": self.max_in, "max_out": self.max_out, "filter": self.filter, "root": self.root})
     }
 
     fn init(&self) -> Sys {
@@ -536,7 +594,7 @@ impl Model for MgrModel {
         let mut node = Node::new(b, vec![]).expect("node");
         node.settle();
         let snapshot = node.litep2p.verif_snapshot();
-        Sys {
+        let mut sys = Sys {
             node,
             mon,
             mon_seen: 0,
@@ -558,7 +616,22 @@ impl Model for MgrModel {
             violations: Vec::new(),
             tie_cut: false,
             rt: rt.clone(),
+        };
+        for step in root_script(self.root) {
+            let en = self.enabled(&sys);
+            let pick = match &step {
+                RootStep::Exact(a) => en.iter().find(|e| format!("{e:?}") == format!("{a:?}")).cloned(),
+                RootStep::First(k) => en.iter().find(|e| act_kind(e) == *k).cloned(),
+                RootStep::Last(k) => en.iter().rev().find(|e| act_kind(e) == *k).cloned(),
+            };
+            // a step that is not enabled (e.g. refused by the configured limits) is skipped: the root is then a
+            // different, still legitimate, reachable state
+            if let Some(a) = pick {
+                let _ = self.apply(&mut sys, &a);
+            }
         }
+        sys.violations.clear();
+        sys
     }
 
     fn enabled(&self, sys: &Sys) -> Vec<Act> {
@@ -966,9 +1039,13 @@ pub fn run_filtered(ctx: &mut Ctx, filter: &'static str) {
             .filter(|k| k.property.eq_ignore_ascii_case(filter))
             .map(|k| k.signature)
             .collect();
-        let m = MgrModel { max_in, max_out, depth, filter, known };
-        let out = ex.run(&m);
-        e1::absorb(ctx, &format!("manager[max_in={max_in:?},max_out={max_out:?}]"), out);
+        let roots: &[&'static str] = if filter == "c06" { &["", "p1-inbound-and-dial-in-flight+p2-outbound", "p1-two-connections"] } else { &[""] };
+        for root in roots {
+            let m = MgrModel { max_in, max_out, depth, filter, known: known.clone(), root };
+            let out = ex.run(&m);
+            let label = if root.is_empty() { format!("manager[max_in={max_in:?},max_out={max_out:?}]") } else { format!("manager[max_in={max_in:?},max_out={max_out:?},root={root}]") };
+            e1::absorb(ctx, &label, out);
+        }
     }
     ctx.cov("depth_bound", depth as u64);
     ctx.cov(
@@ -995,6 +1072,11 @@ pub fn replay(case: &Value) -> Result<String, String> {
         depth: 99,
         filter,
         known: crate::report::load_known_findings().into_iter().map(|k| k.signature).collect(),
+        root: match cfg["root"].as_str() {
+            Some("p1-inbound-and-dial-in-flight+p2-outbound") => "p1-inbound-and-dial-in-flight+p2-outbound",
+            Some("p1-two-connections") => "p1-two-connections",
+            _ => "",
+        },
     };
     let actions: Vec<Act> = serde_json::from_value(case["actions"].clone()).map_err(|e| e.to_string())?;
     e1::replay_actions(&m, &actions, case["probe"].as_bool().unwrap_or(false))
